@@ -555,6 +555,34 @@ Section HpkeTheorems.
     rewrite S1, S2. cbn [bind]. destruct (negb (beq prefix pf)); [discriminate|].
     apply raw_decrypt_never_panics. intros enc L. apply decap_never_panics. exact L.
   Qed.
+  (* Encrypt never panics either *)
+  Lemma encap_never_panics k pkR eph : Encap k pkR eph <> Panic.
+  Proof.
+    destruct k; unfold encap; cbv beta iota.
+    1-4: (destruct (dh _ eph pkR); [|discriminate]; destruct (dh_pub _ eph); [|discriminate];
+          apply bind_not_panic; [apply dhkem_derive_never_panics|discriminate]).
+    1-2: (destruct (mlkem_encap _ pkR eph); discriminate).
+    unfold xw_enc, xw_encap.
+    destruct (Nat.eqb_spec (length pkR) xw_public_key_size) as [L|]; [|discriminate]. cbn [negb].
+    apply bind_not_panic; [apply slice_not_panic; [lia|rewrite L; unfold mlkem768_ek_size, xw_public_key_size; lia]|].
+    intros pkM _.
+    apply bind_not_panic; [apply slice_not_panic; [rewrite L; unfold mlkem768_ek_size, xw_public_key_size; lia|lia]|].
+    intros pkX _.
+    destruct (dh_pub _ _); [|discriminate]. destruct (dh _ _ _); [|discriminate].
+    destruct (mlkem_encap _ _ _) as [[? ?]|]; discriminate.
+  Qed.
+
+  Theorem hpke_encrypt_never_panics k d a prefix pkR eph info pt :
+    Encrypt k d a prefix pkR eph info pt <> Panic.
+  Proof.
+    unfold hpke_encrypt. apply bind_not_panic; [|discriminate].
+    unfold raw_encrypt. destruct (Nat.eqb (length pkR) 0); [discriminate|].
+    apply bind_not_panic; [apply encap_never_panics|]. intros [ss enc] _.
+    apply bind_not_panic; [apply key_schedule_never_panics|]. intros [key bn] Hk.
+    apply key_schedule_lengths in Hk.
+    apply bind_not_panic; [apply context_seal_never_panics; apply Hk|discriminate].
+  Qed.
+
   (* ---------------------------------------------------------------- *)
   (* symbolic binding: a tampered (enc, info, key) is accepted only if *)
   (* one of the primitives exhibits an explicit collision              *)
@@ -772,6 +800,66 @@ Section HpkeTheorems.
     - exfalso. exact (hpke_decrypt_never_panics _ _ _ _ _ _ _ E).
   Qed.
 End HpkeTheorems.
+
+Section XwingBinding.
+  Variable extract : hash -> bytes -> bytes -> bytes.
+  Variable expand : hash -> bytes -> bytes -> nat -> bytes.
+  Variable dh : kem -> bytes -> bytes -> option bytes.
+  Variable dh_pub : kem -> bytes -> option bytes.
+  Variable mlkem_decap : kem -> bytes -> bytes -> option bytes.
+  Variable shake256 : bytes -> nat -> bytes.
+  Variable sha3_256 : bytes -> bytes.
+
+  (* X-Wing: a decapsulation collision is a SHA3-256 collision of the combiner or an
+     ML-KEM-768 ciphertext collision (ctX and pkX are inputs of the combiner) *)
+  Definition sha3_collision : Prop := exists x y, x <> y /\ sha3_256 x = sha3_256 y.
+  Definition mlkem_ct_collision : Prop :=
+    exists k seed ct ct' ss, ct <> ct' /\ mlkem_decap k seed ct = Some ss /\ mlkem_decap k seed ct' = Some ss.
+
+  Lemma xw_dec_shape enc skR ss : decap extract expand dh dh_pub mlkem_decap shake256 sha3_256 XWING enc skR = Ok ss ->
+    exists seedM skX ctM ctX ssM ssX pkX,
+      xw_expand shake256 skR = Ok (seedM, skX) /\ enc = ctM ++ ctX /\ length ctM = mlkem768_ct_size /\
+      length enc = xw_ciphertext_size /\
+      mlkem_decap MLKEM768 seedM ctM = Some ssM /\ dh X25519 skX ctX = Some ssX /\ dh_pub X25519 skX = Some pkX /\
+      ss = sha3_256 (ssM ++ ssX ++ ctX ++ pkX ++ xwing_label).
+  Proof.
+    unfold decap; cbv beta iota. unfold xw_dec, xw_decap.
+    destruct (Nat.eqb_spec (length enc) xw_ciphertext_size) as [L|]; [|discriminate]. cbn [negb].
+    intros H. inv_bind H. destruct v as [seedM skX].
+    assert (Lc : (mlkem768_ct_size <= length enc)%nat) by (rewrite L; unfold mlkem768_ct_size, xw_ciphertext_size; lia).
+    destruct (slice_split mlkem768_ct_size enc Lc) as (ctM & ctX & E & LM & S1 & S2).
+    rewrite S1, S2 in Hb. cbn [bind] in Hb.
+    destruct (mlkem_decap MLKEM768 seedM ctM) as [ssM|] eqn:EM; [|discriminate].
+    destruct (dh X25519 skX ctX) as [ssX|] eqn:EX; [|discriminate].
+    destruct (dh_pub X25519 skX) as [pkX|] eqn:EP; [|discriminate].
+    exists seedM, skX, ctM, ctX, ssM, ssX, pkX. unfold xw_combiner in Hb.
+    repeat split; auto. congruence.
+  Qed.
+
+  Lemma xwing_no_decap_collision skR :
+    (forall seed ct ss, mlkem_decap MLKEM768 seed ct = Some ss -> length ss = 32%nat) ->
+    (forall sk pk ss, dh X25519 sk pk = Some ss -> length ss = 32%nat) ->
+    decap_collision extract expand dh dh_pub mlkem_decap shake256 sha3_256 XWING skR -> sha3_collision \/ mlkem_ct_collision.
+  Proof.
+    intros LM LX (enc & enc' & ss & Hne & L & L' & H & H').
+    apply xw_dec_shape in H. apply xw_dec_shape in H'.
+    destruct H as (seedM & skX & ctM & ctX & ssM & ssX & pkX & Ex & Ee & LcM & Le & DM & DX & PX & Es).
+    destruct H' as (seedM' & skX' & ctM' & ctX' & ssM' & ssX' & pkX' & Ex' & Ee' & LcM' & Le' & DM' & DX' & PX' & Es').
+    assert (seedM' = seedM /\ skX' = skX) as [-> ->] by (split; congruence).
+    assert (pkX' = pkX) by congruence. subst pkX'.
+    rewrite Es in Es'.
+    destruct (bytes_eq_dec (ssM ++ ssX ++ ctX ++ pkX ++ xwing_label) (ssM' ++ ssX' ++ ctX' ++ pkX ++ xwing_label)) as [E|N];
+      [|left; eexists; eexists; split; [exact N|exact Es']].
+    apply app_inv_length in E; [|rewrite (LM _ _ _ DM), (LM _ _ _ DM'); reflexivity]. destruct E as [EM E].
+    apply app_inv_length in E; [|rewrite (LX _ _ _ DX), (LX _ _ _ DX'); reflexivity]. destruct E as [_ E].
+    assert (LcX : length ctX = length ctX').
+    { apply (f_equal (@length N)) in Ee. apply (f_equal (@length N)) in Ee'. rewrite app_length in Ee, Ee'. lia. }
+    apply app_inv_length in E; [|exact LcX]. destruct E as [EX _].
+    subst ssM' ctX'. right. exists MLKEM768, seedM, ctM, ctM', ssM. repeat split; auto.
+    intros ->. apply Hne. congruence.
+  Qed.
+
+End XwingBinding.
 
 (* ------------------------------------------------------------------ *)
 (* a toy instance of the oracles: the laws are jointly satisfiable     *)
